@@ -69,13 +69,17 @@ def check(ctx, config, rule):
         I, r = arena.run_fn(ctx, b['id'], config)
         ev = own(r)
         sl = [e for e in ev if e.kind == 'call' and (e.callee or '').endswith('::set_len')]
-        clause('new', 'vec.len := 0 before any element is handed out (leak amplification)', len(sl) == 1 and sl[0].args[0] == ('param', 1) and sl[0].args[1] == C(0), '', b.get('span'))
+        # ... or the same store made directly (`mem::replace(&mut self.len, 0)`, `self.len = 0`)
+        zs = [e for e in r.events if e.kind == 'store' and e.lv == ('fld', ('deref', ('param', 1)), 'collections::vec::Vec.len')]
+        zero_ok = (len(sl) == 1 and sl[0].args[0] == ('param', 1) and sl[0].args[1] == C(0)) or (not sl and len(zs) == 1 and zs[0].val == C(0))
+        clause('new', 'vec.len := 0 before any element is handed out (leak amplification)', zero_ok, '', b.get('span'))
         ret = r.ret
         good = ret is not None and ret[0] == 'agg' and field_of(ret, 'idx') == C(0) and field_of(ret, 'del') == C(0) and field_of(ret, 'panic_flag') == C(0) \
             and field_of(ret, 'vec') == ('param', 1) and fold(field_of(ret, 'old_len')) == LEN
         # the length captured is the one before it was zeroed
         ol = field_of(ret, 'old_len') if ret is not None and ret[0] == 'agg' else None
-        before = ol is not None and ol[0] == 'load' and bool(sl) and ol[2] <= sl[0].state.epoch
+        zero_epoch = sl[0].state.epoch if sl else (zs[0].state.epoch if zs else None)
+        before = ol is not None and ol[0] == 'load' and zero_epoch is not None and ol[2] <= zero_epoch
         clause('new', 'DrainFilter { idx: 0, del: 0, old_len: len before zeroing, panic_flag: false }', good and before, show(ret)[:120] if ret else '', b.get('span'))
     # ---- next
     b = body_of(db, lambda b: 'DrainFilter<' in b['id'] and (b['meta'].get('impl_trait') or '').endswith('Iterator') and b['meta'].get('name') == 'next' and b['kind'] == 'assoc_fn')
@@ -120,7 +124,7 @@ def check(ctx, config, rule):
         clause('next', 'a kept element moves from v[idx] to v[idx - del], one element', okc)
         if cp:
             fs = {tuple(fold(x) if isinstance(x, tuple) else x for x in f) for f in cp[0].state.facts}
-            clause('next', 'the back-shift of a kept element happens exactly under del > 0 and !drained', ('lt', C(0), DEL) in fs and any(f[0] == 'nottrue' and '<callable>' in repr(f[1]) for f in cp[0].state.facts))
+            clause('next', 'the back-shift of a kept element happens exactly under del > 0 and !drained', (('lt', C(0), DEL) in fs or ('ne', C(0), DEL) in fs or ('ne', DEL, C(0)) in fs) and any(f[0] == 'nottrue' and '<callable>' in repr(f[1]) for f in cp[0].state.facts))
     # ---- BackshiftOnDrop::drop
     b = body_of(db, lambda b: 'BackshiftOnDrop' in b['id'] and b['meta'].get('name') == 'drop' and 'DrainFilter' in b['id'])
     if b is None:
